@@ -115,7 +115,6 @@ type observer struct {
 	lastOff  int
 	lastH    int
 	unloads  int // onUnload callbacks so far
-	unloaded int
 }
 
 func (ob *observer) scriptOf(c *vm.Context) int {
@@ -274,7 +273,8 @@ func (ob *observer) loader(p *program, out *runOut) func(v *vm.VM, id uint32) er
 				return nil
 			}
 		}
-		done := func(*vm.VM) { ob.unloaded++ }
+		// (no onUnloaded callback: with one, unloadContext turns every exception passing through into a FAULT - the
+		// 'called from a native contract' rule -, nothing would ever be caught across the boundary)
 		nefOf := func() (*nef.File, error) { return nef.NewFile(sc.Code) }
 		switch kind {
 		case kRV1:
@@ -285,14 +285,14 @@ func (ob *observer) loader(p *program, out *runOut) func(v *vm.VM, id uint32) er
 				if err != nil {
 					return err
 				}
-				v.LoadNEFMethod(ne, emptyManifest, caller, sc.Hash, callflag.All, true, 0, sc.InitOff, rec(variant == 1), done, false)
+				v.LoadNEFMethod(ne, emptyManifest, caller, sc.Hash, callflag.All, true, 0, sc.InitOff, rec(variant == 1), nil, false)
 			}
 		case kRV0, kCC0:
 			ne, err := nefOf()
 			if err != nil {
 				return err
 			}
-			v.LoadNEFMethod(ne, emptyManifest, caller, sc.Hash, callflag.All, false, 0, sc.InitOff, rec(kind == kCC0), done, false)
+			v.LoadNEFMethod(ne, emptyManifest, caller, sc.Hash, callflag.All, false, 0, sc.InitOff, rec(kind == kCC0), nil, false)
 		case kAll:
 			v.LoadScriptWithFlags(sc.Code, callflag.All)
 		case kDyn:
